@@ -1,0 +1,139 @@
+//! Verification hook H3 (cargo feature `verif`, off by default): a seam
+//! in front of the file system calls of the interpreter.
+//!
+//! `File` and `OpenOptions` mirror the subset of the `std::fs` API that
+//! `io.rs` uses. When a [VerifFs] is installed on the current thread, all
+//! calls go to it; otherwise they go to `std::fs`.
+
+use std::cell::RefCell;
+use std::io::{Read, Seek, SeekFrom, Write};
+
+pub trait VerifFile: Read + Write + Seek {}
+
+impl<T: Read + Write + Seek> VerifFile for T {}
+
+#[derive(Clone, Copy, Debug, Default, PartialEq, Eq)]
+pub struct OpenFlags {
+    pub read: bool,
+    pub write: bool,
+    pub create: bool,
+    pub truncate: bool,
+    pub append: bool,
+}
+
+pub trait VerifFs {
+    fn open(&mut self, path: &str, flags: OpenFlags) -> std::io::Result<Box<dyn VerifFile>>;
+
+    fn remove_file(&mut self, path: &str) -> std::io::Result<()>;
+
+    fn rename(&mut self, from: &str, to: &str) -> std::io::Result<()>;
+}
+
+thread_local! {
+    static FS: RefCell<Option<Box<dyn VerifFs>>> = const { RefCell::new(None) };
+}
+
+/// Installs (or removes) the file system implementation of the current thread.
+/// Returns the previous one.
+pub fn install(fs: Option<Box<dyn VerifFs>>) -> Option<Box<dyn VerifFs>> {
+    FS.with(|cell| std::mem::replace(&mut *cell.borrow_mut(), fs))
+}
+
+fn with_fs<T>(f: impl FnOnce(&mut dyn VerifFs) -> T) -> Option<T> {
+    FS.with(|cell| cell.borrow_mut().as_mut().map(|fs| f(fs.as_mut())))
+}
+
+pub fn try_remove_file(path: &str) -> Option<std::io::Result<()>> {
+    with_fs(|fs| fs.remove_file(path))
+}
+
+pub fn try_rename(from: &str, to: &str) -> Option<std::io::Result<()>> {
+    with_fs(|fs| fs.rename(from, to))
+}
+
+pub struct File(Box<dyn VerifFile>);
+
+impl File {
+    pub fn open(path: &str) -> std::io::Result<Self> {
+        OpenOptions::new().read(true).open(path)
+    }
+
+    pub fn create(path: &str) -> std::io::Result<Self> {
+        OpenOptions::new()
+            .write(true)
+            .create(true)
+            .truncate(true)
+            .open(path)
+    }
+}
+
+impl Read for File {
+    fn read(&mut self, buf: &mut [u8]) -> std::io::Result<usize> {
+        self.0.read(buf)
+    }
+}
+
+impl Write for File {
+    fn write(&mut self, buf: &[u8]) -> std::io::Result<usize> {
+        self.0.write(buf)
+    }
+
+    fn flush(&mut self) -> std::io::Result<()> {
+        self.0.flush()
+    }
+}
+
+impl Seek for File {
+    fn seek(&mut self, pos: SeekFrom) -> std::io::Result<u64> {
+        self.0.seek(pos)
+    }
+}
+
+#[derive(Default)]
+pub struct OpenOptions(OpenFlags);
+
+impl OpenOptions {
+    pub fn new() -> Self {
+        Self::default()
+    }
+
+    pub fn read(&mut self, v: bool) -> &mut Self {
+        self.0.read = v;
+        self
+    }
+
+    pub fn write(&mut self, v: bool) -> &mut Self {
+        self.0.write = v;
+        self
+    }
+
+    pub fn create(&mut self, v: bool) -> &mut Self {
+        self.0.create = v;
+        self
+    }
+
+    pub fn truncate(&mut self, v: bool) -> &mut Self {
+        self.0.truncate = v;
+        self
+    }
+
+    pub fn append(&mut self, v: bool) -> &mut Self {
+        self.0.append = v;
+        self
+    }
+
+    pub fn open(&self, path: &str) -> std::io::Result<File> {
+        let flags = self.0;
+        match with_fs(|fs| fs.open(path, flags)) {
+            Some(result) => result.map(File),
+            None => std::fs::OpenOptions::new()
+                .read(flags.read)
+                .write(flags.write)
+                .create(flags.create)
+                .truncate(flags.truncate)
+                .append(flags.append)
+                .open(path)
+                .map(|f| File(Box::new(f))),
+        }
+    }
+}
